@@ -3201,6 +3201,7 @@ class Translator:
         self.order = []
         self.inout = {}
         self.emitted = {}
+        self.poisoned = {}           # functions whose generated text Lean rejected on an earlier pass of this run
         self.discovered = set()      # helpers translated on demand: if one is outside the subset only its callers fail
         self.helper_failed = {}
         # methods that call an injected function (directly or not): the log of those calls is threaded through them
@@ -3276,13 +3277,16 @@ class Translator:
                 # private helpers of the same file that a listed function calls (extracted by a refactor, say) are
                 # translated on demand, before their caller
                 for h in self.discover(funcs, q, configured, []):
-                    if h not in self.funcs:
+                    if h not in self.funcs and h not in self.poisoned:
                         fh = funcs[h] if len(funcs[h]) == 4 else funcs[h] + ([],)
                         self.funcs[h] = (rel,) + fh + ({},)
                         self.order.append(h)
                         self.discovered.add(h)
                 if q not in funcs:
                     self.failed[q] = "%s: function %s not found" % (rel, q)
+                    continue
+                if q in self.poisoned:
+                    self.failed[q] = "%s: %s: the generated definition does not elaborate: %s" % (rel, q, self.poisoned[q])
                     continue
                 if funcs[q][0] == "ERROR":
                     self.failed[q] = "%s: %s does not parse: %s" % (rel, q, funcs[q][1])
@@ -3461,7 +3465,7 @@ Everything here is a kernel-checked proof or fails. -/
 macro "src_portfolio" : tactic => `(tactic|
   first
     | with_reducible rfl
-    | ((repeat' split) <;> first | with_reducible rfl | omega | (simp_all; done) | grind))
+    | ((repeat' split) <;> first | with_reducible rfl | (delta_matchers; with_reducible rfl) | omega | (simp_all; done) | grind))
 """
 
 
@@ -3483,8 +3487,19 @@ def write_if_changed(path, text):
         open(path, "w").write(text)
 
 
-def main():
+def src_text(tr, defs):
+    names = list(tr.emitted)
+    fails = "".join("-- NOT TRANSLATED %s\n" % str(v).replace("\n", " ") for v in tr.failed.values())
+    return ("-- GENERATED by tools/rs2lean.py from /repo/src on every run. Do not edit.\n"
+            "-- One Lean definition per listed Rust function, translated statement by statement (namespace TzVerif.SrcNow;\n"
+            "-- Generated/Stable/*.lean prove each equal to the committed baseline TzVerif.Src of SrcBase.lean).\n" + fails +
+            "import TzVerif.SrcPrelude\nimport TzVerif.SrcPreludeStr\nimport TzVerif.SrcPreludeIo\nimport TzVerif.Model.TzFile\nimport TzVerif.Model.Find\n\nset_option linter.unusedVariables false\n\nnamespace TzVerif.SrcNow\nopen TzVerif\n\n"
+            + now_text("\n".join(defs), names) + "\nend TzVerif.SrcNow\n")
+
+
+def translate(poisoned):
     tr = Translator(CONFIG)
+    tr.poisoned = dict(poisoned)
     try:
         defs = tr.run()
     except Exception as e:     # anything the translator does not expect: fail closed (empty module)
@@ -3493,13 +3508,55 @@ def main():
         tr.failed["*"] = "internal: %s: %s" % (type(e).__name__, e)
         tr.order = []
         tr.emitted = {}
+    return tr, defs
+
+
+def elaboration_errors(text):
+    """functions of the generated module that Lean rejects (so that one ill-typed definition costs that function and
+    its callers, not the module): {function: first error}. The verdict for a text is cached by its hash."""
+    import hashlib
+    import subprocess
+    lean_dir = os.path.dirname(os.path.dirname(OUT))
+    work = os.path.join(os.path.dirname(lean_dir), "work")
+    os.makedirs(work, exist_ok=True)
+    h = hashlib.sha256(text.encode()).hexdigest()
+    cache = os.path.join(work, "src_elab_ok.txt")
+    if os.path.exists(cache) and h in open(cache).read().split():
+        return {}
+    tmp = os.path.join(work, "SrcCheck.lean")
+    open(tmp, "w").write(text)
+    try:
+        r = subprocess.run(["lake", "env", "lean", tmp], cwd=lean_dir, capture_output=True, text=True, timeout=900)
+    except Exception as e:
+        sys.stderr.write("rs2lean: elaboration check not run: %s\n" % e)
+        return {}
+    out = r.stdout + r.stderr
+    lines = text.split("\n")
+    starts = [(i + 1, m.group(1)) for i, l in enumerate(lines) for m in [re.match(r"def (\S+) ", l)] if m]
+    bad = {}
+    for m in re.finditer(r"SrcCheck\.lean:(\d+):\d+: error(?:\([^)]*\))?: ([^\n]*)", out):
+        ln = int(m.group(1))
+        owner = None
+        for st, name in starts:
+            if st <= ln:
+                owner = name
+        if owner and owner not in bad:
+            bad[owner] = m.group(2)[:160]
+    if not bad and r.returncode == 0:
+        open(cache, "a").write(h + "\n")
+    return bad
+
+
+def main():
+    poisoned = {}
+    for _ in range(4):
+        tr, defs = translate(poisoned)
+        bad = elaboration_errors(src_text(tr, defs))
+        if not bad:
+            break
+        poisoned.update(bad)
     names = list(tr.emitted)
-    fails = "".join("-- NOT TRANSLATED %s\n" % str(v).replace("\n", " ") for v in tr.failed.values())
-    text = ("-- GENERATED by tools/rs2lean.py from /repo/src on every run. Do not edit.\n"
-            "-- One Lean definition per listed Rust function, translated statement by statement (namespace TzVerif.SrcNow;\n"
-            "-- Generated/Stable/*.lean prove each equal to the committed baseline TzVerif.Src of SrcBase.lean).\n" + fails +
-            "import TzVerif.SrcPrelude\nimport TzVerif.SrcPreludeStr\nimport TzVerif.SrcPreludeIo\nimport TzVerif.Model.TzFile\nimport TzVerif.Model.Find\n\nset_option linter.unusedVariables false\n\nnamespace TzVerif.SrcNow\nopen TzVerif\n\n"
-            + now_text("\n".join(defs), names) + "\nend TzVerif.SrcNow\n")
+    text = src_text(tr, defs)
     write_if_changed(os.path.join(OUT, "Src.lean"), text)
     # ---- stability: the current translation equals the baseline, function by function
     base_path = os.path.join(os.path.dirname(OUT), "SrcBase.lean")
@@ -3538,8 +3595,8 @@ def main():
                      + ("  (try simp only [%s])\n" % ", ".join("SrcNow.%s" % n for n in helpers) if helpers else "")
                      # callees: rewritten to the baseline's, so that nothing below them has to be unfolded
                      + "".join("  (try rw [TzVerif.Stable.%s.stable])\n" % c for c in cs)
-                     + "  all_goals (\n    delta_matchers\n    first\n"
-                     + "      | with_reducible rfl\n"                                                   # identical text
+                     + "  all_goals (\n    first\n"
+                     + "      | (delta_matchers; with_reducible rfl)\n"                                # identical text
                      + "      | ((try simp only []); (try delta_matchers); with_reducible rfl)\n"      # lets renamed / reordered / inlined
                      + "      | src_portfolio)\n")
         else:
